@@ -90,8 +90,7 @@ increments made durable) -/
 def Done (p0 : List Cmd) (reads : List (Option Int)) (mine : List Mut) (cinc : List (Nat × Int)) : Outcome → Prop
   | .returned rs => ∃ s, specBody p0 reads {} = .normal s [] ∧ rs = s.results ∧ mine = s.done ++ commitMuts s ∧
       cinc = s.cinc ++ s.pend
-  | .raisedBody => specBody p0 reads {} = .raised ∧ Stopped p0 reads mine cinc (fun rest => ∃ r, rest = .raise false :: r)
-  | .raisedBase => specBody p0 reads {} = .raised ∧ Stopped p0 reads mine cinc (fun rest => ∃ r, rest = .raise true :: r)
+  | .raised e => specBody p0 reads {} = .raised ∧ Stopped p0 reads mine cinc (fun rest => ∃ r, rest = .raise e :: r)
   | .raisedLocked => Stopped p0 reads mine cinc (fun _ => True)
   | .cancelled => Stopped p0 reads mine cinc (fun _ => True)
 
@@ -215,7 +214,7 @@ theorem Pre_end {p0 : List Cmd} {t : Task} (h : Pre p0 [] t) : specBody p0 t.rea
   obtain ⟨p, hp, hsp⟩ := h
   simpa [hp] using hsp
 
-theorem Pre_raise {p0 : List Cmd} {b : Bool} {rest : List Cmd} {t : Task} (h : Pre p0 (.raise b :: rest) t) :
+theorem Pre_raise {p0 : List Cmd} {b : Exc} {rest : List Cmd} {t : Task} (h : Pre p0 (.raise b :: rest) t) :
     specBody p0 t.reads {} = .raised := by
   obtain ⟨p, hp, hsp⟩ := h
   have := specBody_append p (.raise b :: rest) [] _ _ _ hsp
@@ -248,16 +247,15 @@ theorem OWpark_abort_stop {p0 rem : List Cmd} {t : Task} {mine : List Mut} (hm :
   unfold abort at hd ⊢
   split <;> simp_all [OWpark]
 
-theorem OWpark_abort_body {p0 : List Cmd} {b : Bool} {rest : List Cmd} {t : Task} {mine : List Mut}
+theorem OWpark_abort_body {p0 : List Cmd} {b : Exc} {rest : List Cmd} {t : Task} {mine : List Mut}
     (hm : mine = t.cmuts) (h : Pre p0 (.raise b :: rest) t) :
-    OWpark p0 (abort t (if b then .raisedBase else .raisedBody)) mine := by
+    OWpark p0 (abort t (.raised b)) mine := by
   have hs := Pre_stopped h (Q := fun r => ∃ r', r = .raise b :: r') ⟨rest, rfl⟩
   have hr := Pre_raise h
-  have k := abort_keeps t (if b then .raisedBase else .raisedBody)
-  have hd : Done p0 (abort t (if b then .raisedBase else .raisedBody)).reads mine
-      (abort t (if b then .raisedBase else .raisedBody)).cinc (if b then .raisedBase else .raisedBody) := by
+  have k := abort_keeps t (.raised b)
+  have hd : Done p0 (abort t (.raised b)).reads mine (abort t (.raised b)).cinc (.raised b) := by
     rw [k.1, k.2.2, hm]
-    cases b <;> exact ⟨hr, hs⟩
+    exact ⟨hr, hs⟩
   unfold abort at hd ⊢
   split <;> simp_all [OWpark]
 
